@@ -655,6 +655,58 @@ class C07Property:
                     exp = corr.err_name(e)
                 h.ask("register " + " ".join(map(str, pick)), exp, what="register-mismatch")
                 dist["malformed"] += 1
+        # registration HISTORIES on one adapter with rejected calls caught (exception safety): what stays
+        # registered must be exactly the accepted topologies, and create_expressions() afterwards must be the
+        # merge of those alone (a rejected topology that stays registered gives names a second meaning)
+        hist_n = {"quick": 24, "thorough": 200}[tier]
+        found_hist: list[tuple[dict, dict]] = []
+        n_hist = n_rejected = 0
+        all_idx = list(range(len(h.topologies)))
+        for _ in range(hist_n):
+            if len(all_idx) < 3:
+                break
+            base = rng.choice(all_idx)
+            same = [i for i in all_idx if frozenset(h.topologies[i].outgoing_edge_ids) == frozenset(h.topologies[base].outgoing_edge_ids)
+                    and frozenset(h.topologies[i].incoming_edge_ids) == frozenset(h.topologies[base].incoming_edge_ids)]
+            other = [i for i in all_idx if i not in same]
+            if not other:
+                continue
+            seq = [base] + [rng.choice(other) if rng.random() < 0.5 else rng.choice(same) for _ in range(rng.randint(1, 4))]
+            if all(i in same for i in seq):
+                seq.insert(rng.randint(1, len(seq)), rng.choice(other))
+            try:
+                ad = HelicityAdapter([h.topologies[seq[0]]])
+            except Exception:  # noqa: BLE001  (a non-isobar base: covered by the malformed stream)
+                continue
+            errs, kept = 0, [seq[0]]
+            for i in seq[1:]:
+                try:
+                    ad.register_topology(h.topologies[i])
+                    kept.append(i)
+                except Exception:  # noqa: BLE001
+                    errs += 1
+            n_hist += 1
+            n_rejected += errs
+            h.ask("reghist " + " ".join(map(str, seq)), f"kept {len(ad.registered_topologies)} errs {errs}", what="register-history")
+            # real-side oracle: the adapter after the history == a fresh adapter with the accepted topologies only
+            try:
+                got = ad.create_expressions()
+                ref_ad = HelicityAdapter([h.topologies[kept[0]]])
+                for i in kept[1:]:
+                    ref_ad.register_topology(h.topologies[i])
+                ref = ref_ad.create_expressions()
+                same_defs = list(got) == list(ref) and all(got[k] == ref[k] for k in ref)
+            except Exception as e:  # noqa: BLE001
+                same_defs, got, ref = False, {"error": corr.err_name(e)}, {}
+            if not same_defs:
+                diff = sorted(str(k) for k in set(got) | set(ref) if got.get(k) != ref.get(k))[:6]
+                found_hist.append(({"class": "rejected register_topology call changes the adapter"},
+                                   {"input": {"history": [corr.canonical_topo(h.topologies[i]) for i in seq],
+                                              "accepted_positions": [seq.index(i) for i in kept]},
+                                    "observed": {"differing_variables": diff, "registered": len(ad.registered_topologies)},
+                                    "expected": "create_expressions() of a fresh adapter holding the accepted topologies only"}))
+        dist["register_histories"] = n_hist
+        dist["register_histories_rejected_calls"] = n_rejected
         # malformed stream: non-isobar topologies
         for n_out in (3, 4):
             t = create_n_body_topology(1, n_out)
@@ -694,7 +746,7 @@ class C07Property:
                 chk.sample({"request": line[:80], "topology": corr.canonical_topo(h.topologies[n]) if n is not None else None,
                             "real": str(exp)[:400], "model": got[:400]})
 
-        found: list[tuple[dict, dict]] = []
+        found: list[tuple[dict, dict]] = list(found_hist[:3])
         for ab in h.parse_aborts[:3]:
             chk.broken_correspondence("parser", ab)
         if h.parse_aborts:
@@ -838,6 +890,10 @@ MANIFEST = {
                  "regenerated InvariantMass unfolding (translator + Float twin); independent boost-and-rotate oracle",
     "design_ref": "DESIGN.md §3 C07 (and §2.3 M2, §2.7)",
     "text": (
+        "Registration histories (since round 7): C07_rejected_registration_is_noop / C07_accepted_registration — a rejected "
+        "register_topology call leaves the adapter's registered set unchanged, for every history before it; the real adapter is driven "
+        "through histories with rejected calls caught (what stays registered = model; create_expressions() afterwards = fresh adapter "
+        "holding the accepted topologies only). "
         "Proof about an executable topology model + differential tie. The Lean model M2 (Model/Topology.lean) mirrors "
         "decay.py/naming.py/lorentz.py/angles.py/kinematics.__init__ line by line on decay trees addressed by edge id and yields "
         "for every symbol a descriptor (mass: final-state ids summed; angle pair: chain of subsystems boosted into + ids "
